@@ -1,7 +1,173 @@
-(* C17 - every query text terminates and either yields a value or raises a query error.
-   Property statements only.  Model: Model/Query.v; proofs: Proofs/Query*.v. *)
+(* C17 - any query text either parses or is rejected with a query error, and terminates.
+   Property statements only: each theorem is closed by [exact <lemma>] and followed by
+   Print Assumptions.  Model: Model/PyStr.v, Model/Query.v (query2.py and the call plumbing of
+   functions.py, line by line, every raising Python operation explicit); proofs:
+   Proofs/QueryScan.v, Proofs/QueryTotal.v, Proofs/QueryClasses.v.
+   The theorems hold for every registry [table], every world type, every bucket predicate,
+   every built-in body oracle [body] and every digit limit [max_digits]. *)
 From Coq Require Import String.
-From AwVerif Require Import Base.Prelude Model.PyStr Model.Query.
+From AwVerif Require Import Base.Prelude Model.PyStr Model.Query
+  Proofs.QueryScan Proofs.QueryTotal Proofs.QueryClasses Proofs.QueryExamples.
+Open Scope Z_scope.
 
-Example C17_placeholder : parse_token (zs "f(1) ,") = Ok ((Some TFunction, zs "f(1)"), zs " ,").
+(* For every text: the run yields a value, or a parse / interpret / function error, or an
+   error class that some call of a built-in body itself returned; no IndexError,
+   AttributeError, ValueError, KeyError or TypeError arises from scanning, parsing, name
+   lookup, the argument-count or the top-level type check, and the fuel never runs out. *)
+Theorem C17_total :
+  forall table W buckets (body : str -> list arg -> W -> (value + errclass) * W)
+         max_digits name starttime endtime text w,
+  match fst (run table W buckets body max_digits name starttime endtime text w) with
+  | Ok _ => True
+  | Err ParseError | Err InterpretError | Err FunctionError => True
+  | Err c => exists n args w', fst (body n args w') = inr c
+  | OutOfFuel => False
+  end.
+Proof. exact run_total. Qed.
+Print Assumptions C17_total.
+
+(* Parsing alone (any namespace, any token type, any loop): a token tree or a parse error,
+   given fuel twice the length of the text - which is what parse_stmt hands out. *)
+Theorem C17_parse_total : forall max_digits ns fuel,
+  (forall t tok, tok <> [] -> (2 * List.length tok + 1 <= fuel)%nat ->
+     match parse_tok max_digits ns fuel t tok with Ok _ | Err ParseError => True | _ => False end) /\
+  (forall s, (2 * List.length s + 2 <= fuel)%nat ->
+     match parse_args max_digits ns fuel s with Ok _ | Err ParseError => True | _ => False end) /\
+  (forall s d, (2 * List.length s + 2 <= fuel)%nat ->
+     match parse_dict max_digits ns fuel s d with Ok _ | Err ParseError => True | _ => False end) /\
+  (forall s l, (2 * List.length s + 2 <= fuel)%nat ->
+     match parse_list max_digits ns fuel s l with Ok _ | Err ParseError => True | _ => False end).
+Proof. exact parse_total. Qed.
+Print Assumptions C17_parse_total.
+
+(* Progress (what rules out a hang): a token returned by _parse_token has at least one
+   character and token + remainder are no longer than the input, so every iteration of the
+   argument / entry loops continues on a strictly shorter string; the bracket scanners move
+   past at least one character and never beyond the end. *)
+Theorem C17_progress_token : forall s t tok rest,
+  parse_token s = Ok ((Some t, tok), rest) ->
+  tok <> [] /\ (List.length tok + List.length rest <= List.length s)%nat.
+Proof. exact parse_token_progress. Qed.
+Print Assumptions C17_progress_token.
+
+Theorem C17_progress_scan : forall opn cls dg s i tc sq dq prev i' tc',
+  bscan opn cls dg s i tc sq dq prev = (i', tc') ->
+  (i <= i' <= i + List.length s)%nat /\ (s <> [] -> (i < i')%nat).
+Proof. exact bscan_bound_progress. Qed.
+Print Assumptions C17_progress_scan.
+
+(* --- the class of the error ---------------------------------------------------------- *)
+
+(* malformed text -> parse error *)
+Theorem C17_class_no_equals : forall max_digits ns line,
+  find_char c_eq line = None -> parse_stmt max_digits ns line = Err ParseError.
+Proof. exact stmt_no_equals. Qed.
+Print Assumptions C17_class_no_equals.
+
+Theorem C17_class_nothing_after_equals : forall max_digits ns line i,
+  find_char c_eq line = Some i -> drop (i + 1) line = [] ->
+  parse_stmt max_digits ns line = Err ParseError.
+Proof. exact stmt_nothing_after_equals. Qed.
+Print Assumptions C17_class_nothing_after_equals.
+
+(* a value position (statement value, argument, list entry, dict key or value: each is one
+   _parse_token call) that opens a quote which is never closed *)
+Theorem C17_class_unterminated_quote : forall v q s,
+  strip v = q :: s -> q = c_dq \/ q = c_sq -> ~ In q s -> parse_token v = Err ParseError.
+Proof. exact parse_token_unterminated. Qed.
+Print Assumptions C17_class_unterminated_quote.
+
+(* a value position whose first character starts no token *)
+Theorem C17_class_no_token : forall v c r,
+  strip v = c :: r -> starts_token c = false -> parse_token v = Err ParseError.
+Proof. exact parse_token_no_token. Qed.
+Print Assumptions C17_class_no_token.
+
+(* ... and at the statement level a bad value text makes the statement a parse error, and
+   a parse error in the first non-blank statement is the outcome of the whole query *)
+Theorem C17_class_value_error : forall max_digits ns line i,
+  find_char c_eq line = Some i -> parse_token (drop (i + 1) line) = Err ParseError ->
+  parse_stmt max_digits ns line = Err ParseError.
+Proof. exact stmt_value_error. Qed.
+Print Assumptions C17_class_value_error.
+
+Theorem C17_class_first_statement : forall table W buckets body max_digits name st en q (w : W) c,
+  let first := strip (fst (split_on c_semi q)) in
+  first <> [] ->
+  parse_stmt max_digits (initial_namespace name st en) first = Err c ->
+  run table W buckets body max_digits name st en q w = (Err c, w).
+Proof. exact run_first_statement_error. Qed.
+Print Assumptions C17_class_first_statement.
+
+(* unknown variable or function -> interpret error *)
+Theorem C17_class_unknown_variable : forall table W buckets body n c ns (w : W),
+  dict_mem ns n = false -> interp table W buckets body (QVariable n c) ns w = (Err InterpretError, w).
+Proof. exact unknown_variable. Qed.
+Print Assumptions C17_class_unknown_variable.
+
+Theorem C17_class_unknown_function : forall table W buckets body n args ns (w : W),
+  find_builtin table n = None ->
+  interp table W buckets body (QFunction n args) ns w = (Err InterpretError, w).
+Proof. exact unknown_function. Qed.
+Print Assumptions C17_class_unknown_function.
+
+(* wrong argument count (with arguments of acceptable types) -> interpret error *)
+Theorem C17_class_wrong_count : forall W buckets body b vals (w : W),
+  typecheck (b_sig b) (actual_args b vals) = Ok tt ->
+  arity_ok (b_sig b) (List.length (actual_args b vals)) = false ->
+  call_builtin W buckets body b vals w = (Err InterpretError, w).
+Proof. exact wrong_count. Qed.
+Print Assumptions C17_class_wrong_count.
+
+(* wrong top-level argument type -> function error (whatever the argument count) *)
+Theorem C17_class_wrong_type : forall W buckets body b vals (w : W)
+    pre_sig t rest_sig pre_args a rest_args,
+  b_sig b = pre_sig ++ PTyped t :: rest_sig ->
+  actual_args b vals = pre_args ++ a :: rest_args ->
+  List.length pre_sig = List.length pre_args -> typecheck pre_sig pre_args = Ok tt ->
+  isinstance a t = false ->
+  call_builtin W buckets body b vals w = (Err FunctionError, w).
+Proof. exact wrong_type_at. Qed.
+Print Assumptions C17_class_wrong_type.
+
+(* unknown bucket -> function error *)
+Theorem C17_class_unknown_bucket : forall W buckets body b args bucketname rest (w : W),
+  b_body b = BodyBucket -> vals_of_args args = VStr bucketname :: rest ->
+  buckets w bucketname = false ->
+  run_body W buckets body b args w = (Err FunctionError, w).
+Proof. exact unknown_bucket. Qed.
+Print Assumptions C17_class_unknown_bucket.
+
+(* --- non-vacuity: concrete runs of the model (registry and body oracle of
+   Proofs/QueryExamples.v), one per outcome class, including the inputs that raised
+   IndexError / ValueError before the repairs and an error escaping from a body ------------ *)
+Example C17_ex_value :
+  ex_run "RETURN = echo(1, [2], nop());" = Ok (VList [VInt 1; VList [VInt 2]; VInt 1]).
+Proof. vm_compute. reflexivity. Qed.
+Example C17_ex_blank_argument : ex_run "RETURN = echo( );" = Ok (VList []).
+Proof. vm_compute. reflexivity. Qed.
+Example C17_ex_key_without_value : ex_run "RETURN = {""a""};" = Err ParseError.
+Proof. vm_compute. reflexivity. Qed.
+Example C17_ex_no_equals : ex_run "RETURN" = Err ParseError.
+Proof. vm_compute. reflexivity. Qed.
+Example C17_ex_no_return : ex_run "x = 1" = Err ParseError.
+Proof. vm_compute. reflexivity. Qed.
+Example C17_ex_unterminated : ex_run "RETURN = ""abc" = Err ParseError.
+Proof. vm_compute. reflexivity. Qed.
+Example C17_ex_lenient_unclosed_list : ex_run "RETURN = [1" = Ok (VList []).
+Proof. vm_compute. reflexivity. Qed.
+Example C17_ex_unknown_variable : ex_run "RETURN = zzz" = Err InterpretError.
+Proof. vm_compute. reflexivity. Qed.
+Example C17_ex_missing_argument : ex_run "RETURN = limit_events([])" = Err InterpretError.
+Proof. vm_compute. reflexivity. Qed.
+Example C17_ex_wrong_type : ex_run "RETURN = limit_events(1, 1)" = Err FunctionError.
+Proof. vm_compute. reflexivity. Qed.
+Example C17_ex_unknown_bucket : ex_run "RETURN = query_bucket(""zz"")" = Err FunctionError.
+Proof. vm_compute. reflexivity. Qed.
+Example C17_ex_error_from_body : ex_run "RETURN = boom()" = Err KeyError.
+Proof. vm_compute. reflexivity. Qed.
+(* an integer literal beyond the digit limit is a parse error (max_digits = 3 here) *)
+Example C17_ex_int_limit :
+  fst (run ex_table Z ex_buckets ex_body 3 (zs "n") (zs "a") (zs "b") (zs "RETURN = 1234") 0)
+  = Err ParseError.
 Proof. vm_compute. reflexivity. Qed.
